@@ -25,8 +25,10 @@ What is generated, all from the current working tree, fail closed:
   text itself):
   `_BaseURI.__eq__/__ne__/__hash__`, each `init_from_string`/`to_string`,
   `from_string`, `UnknownURI`, `UnknownNode.__init__`, `strip_prefix_for_ro`,
-  `si_a2b`/`si_b2a`, and `__eq__/__ne__/__hash__` of every node class
-  (or "<absent>").  Props/C15, C16 and C43 compare them with the text the models
+  `si_a2b`/`si_b2a`, `NodeMaker.create_from_cap`/`_create_from_single_cap`, and
+  `__eq__/__ne__/__hash__` of every node class (or "<absent>").
+* nodemaker.py: the two prefixes of the node-cache key in `create_from_cap`
+  (`b"I" + bigcap` / `b"M" + bigcap`), fail closed on any other shape.  Props/C15, C16 and C43 compare them with the text the models
   were written against (a tripwire, not the main tie).
 Anything unexpected raises TranslatorAbort."""
 import ast
@@ -480,6 +482,47 @@ def node_identity_pins():
     return out
 
 
+NODEMAKER_SRC = "src/allmydata/nodemaker.py"
+
+
+def nodemaker_part(out):
+    """NodeMaker.create_from_cap: the two node-cache key prefixes (the context must be part of the key);
+    digests of create_from_cap and _create_from_single_cap."""
+    text, tree = read_source(NODEMAKER_SRC)
+    cls = next((n for n in tree.body if isinstance(n, ast.ClassDef) and n.name == "NodeMaker"), None)
+    if cls is None:
+        raise TranslatorAbort("nodemaker.NodeMaker missing")
+    methods = {n.name: n for n in cls.body if isinstance(n, ast.FunctionDef)}
+    for m in ("create_from_cap", "_create_from_single_cap"):
+        if m not in methods:
+            raise TranslatorAbort("NodeMaker.%s missing" % m)
+    fn = methods["create_from_cap"]
+    assigns = [n for n in ast.walk(fn) if isinstance(n, ast.Assign) and any(isinstance(x, ast.Name) and x.id == "memokey" for x in n.targets)]
+    ifs = [n for n in ast.walk(fn) if isinstance(n, ast.If) and isinstance(n.test, ast.Name) and n.test.id == "deep_immutable"
+           and any(a in n.body for a in assigns)]
+
+    def key_prefix(stmts):
+        if (len(stmts) == 1 and isinstance(stmts[0], ast.Assign) and len(stmts[0].targets) == 1
+                and isinstance(stmts[0].targets[0], ast.Name) and stmts[0].targets[0].id == "memokey"
+                and isinstance(stmts[0].value, ast.BinOp) and isinstance(stmts[0].value.op, ast.Add)
+                and isinstance(stmts[0].value.left, ast.Constant) and isinstance(stmts[0].value.left.value, bytes)
+                and isinstance(stmts[0].value.right, ast.Name) and stmts[0].value.right.id == "bigcap"):
+            return stmts[0].value.left.value
+        raise TranslatorAbort("create_from_cap: memokey is not  <bytes literal> + bigcap")
+    if len(ifs) != 1 or len(assigns) != 2:
+        raise TranslatorAbort("create_from_cap: expected `if deep_immutable: memokey = b'..' + bigcap else: memokey = b'..' + bigcap`")
+    ki, km = key_prefix(ifs[0].body), key_prefix(ifs[0].orelse)
+    # the cache must be read and written with memokey only
+    subs = [n for n in ast.walk(fn) if isinstance(n, ast.Subscript) and isinstance(n.value, ast.Attribute) and n.value.attr == "_node_cache"]
+    if len(subs) != 2 or not all(isinstance(s_.slice, ast.Name) and s_.slice.id == "memokey" for s_ in subs):
+        raise TranslatorAbort("create_from_cap: _node_cache is not indexed by memokey exactly twice")
+    out.append("\n(* nodemaker.py: NodeMaker.create_from_cap caches nodes under  prefix + bigcap *)")
+    out.append("Definition nodemaker_memokey_immutable : string := %s." % s(ki))
+    out.append("Definition nodemaker_memokey_mutable : string := %s." % s(km))
+    pins = ["(%s, %s)" % (s("NodeMaker." + m), s(digest(methods[m]))) for m in ("create_from_cap", "_create_from_single_cap")]
+    out.append("Definition nodemaker_code_pins : list (string * string) := %s." % coq_list(pins, per_line=True))
+
+
 def generate():
     out = []
     b32vals, b32_pins = base32_part(out)
@@ -489,6 +532,7 @@ def generate():
                                              "UnknownNode.get_readcap", "UnknownNode.get_uri", "UnknownNode.get_write_uri",
                                              "UnknownNode.get_readonly_uri"])
     node_pins = node_identity_pins()
+    nodemaker_part(out)
     out.append("\n(* pins (SHA-256 prefix of the normalised source text; identity methods as text) of the definitions the hand-written models were written for *)")
     out.append("Definition base32_code_pins : list (string * string) := %s." % coq_list(b32_pins, per_line=True))
     out.append("Definition uri_code_pins : list (string * string) := %s." % coq_list(code_pins, per_line=True))
